@@ -27,6 +27,7 @@ type Case struct {
 	Selected []string  `json:"selected"` // aggregates in the SELECT list (besides ids)
 	Keys     []string  `json:"keys"`     // group columns
 	Rows     []gen.Row `json:"rows"`     // id, v, key columns
+	NoIDs    bool      `json:"no_ids,omitempty"` // the query selects no collect(id): rows whose aggregated inputs are all NULL feed no selected aggregate
 }
 
 var aggFns = []string{"count", "sum", "avg", "min", "max"}
@@ -61,6 +62,10 @@ func genCase(t *rapid.T) Case {
 		if rapid.Bool().Draw(t, "sel"+f) {
 			c.Selected = append(c.Selected, f)
 		}
+	}
+	c.NoIDs = rapid.IntRange(0, 3).Draw(t, "noids") == 0
+	if c.NoIDs && len(c.Selected) == 0 {
+		c.Selected = []string{"sum"}
 	}
 	nk := rapid.IntRange(0, 2).Draw(t, "nkeys")
 	kinds := make([]int, nk)
@@ -143,7 +148,9 @@ func predText(c Case) string {
 
 func sqlOf(c Case) string {
 	sel := append([]string{}, c.Keys...)
-	sel = append(sel, "collect(id) AS ids")
+	if !c.NoIDs {
+		sel = append(sel, "collect(id) AS ids")
+	}
 	for _, f := range c.Selected {
 		arg := "v"
 		if f == "count" {
@@ -321,7 +328,7 @@ func runCase(c Case) (res pbt.Result) {
 		for _, r := range want[i].rows {
 			wids = append(wids, r["id"].I)
 		}
-		if fmt.Sprint(gids) != fmt.Sprint(wids) {
+		if !c.NoIDs && fmt.Sprint(gids) != fmt.Sprint(wids) {
 			res.Add(pbt.D("wrong-rows", "TRIGGER WHEN %s: result #%d aggregates ids %v, want %v (group %q)", predText(c), i+1, gids, wids, want[i].key))
 			break
 		}
@@ -397,6 +404,9 @@ func runCase(c Case) (res pbt.Result) {
 	}
 	if len(want) == 0 {
 		res.Class("never-fires")
+	}
+	if c.NoIDs {
+		res.Class("no-collect-id")
 	}
 	res.NonTrivial = len(states) >= 2 && (unselected || hasOr) && multi
 	return
